@@ -1538,11 +1538,13 @@ CaseX86M_GPB_MulDiv:
         const Imm& imm0 = o0.as<Imm>();
         const Imm& imm1 = o1.as<Imm>();
 
-        if (imm0.value() > 0xFFFFu || imm1.value() > 0xFFFFFFFFu)
+        // The selector is an unsigned 16-bit value; the offset may be given as a signed or unsigned 32-bit value, only its
+        // low 32 bits are stored (a negative offset must not leak its sign bits into the selector).
+        if (uint64_t(imm0.value()) > 0xFFFFu || imm1.value() > int64_t(0xFFFFFFFFu) || imm1.value() < -int64_t(0x80000000u))
           goto InvalidImmediate;
 
         opcode = alt_opcode_of(inst_info);
-        imm_value = imm1.value() | (imm0.value() << 32);
+        imm_value = int64_t((uint64_t(imm1.value()) & 0xFFFFFFFFu) | (uint64_t(imm0.value()) << 32));
         imm_size = 6;
         goto EmitX86Op;
       }
